@@ -1,15 +1,15 @@
 SPECIFICATION Spec
 CONSTANTS
-  Ids = {"i1"}
+  Ids = {"i1", "k1"}
   Tos = {"server"}
   RFroms = {"exact", "stranger"}
-  Types = {"result"}
+  Types = {"result", "error"}
   OpenKinds = {"plain", "smr", "resumed"}
-  Cids = {"fresh", "empty", "dup"}
-  Bodies = {"none"}
-  Attempts = {}
+  Cids = {"fresh"}
+  Bodies = {"sendNew"}
+  Attempts = {"authfail", "userabort", "precut", "abandon"}
   IdRule = "replace"
-  MaxHist = 4
-CONSTRAINT Bound
+  MaxHist = 99
+VIEW GenView
 ACTION_CONSTRAINT EmitBehaviour
 CHECK_DEADLOCK FALSE
